@@ -22,6 +22,7 @@ THEOREMS = {
         'RsomeV.C01.rc_sound_late\'',
     ],
     'RsomeV.Props.C08': ['RsomeV.C08.cone_dual_weak'],
+    'RsomeV.Props.Lmi': ['RsomeV.Lmi.rc_sound_lmi', 'RsomeV.Lmi.lmi_dual_weak'],
     'RsomeV.Props.C01Model': ['RsomeV.C01Model.block_feas', 'RsomeV.C01Model.ro_model_sound', 'RsomeV.C01Model.ro_model_sound_late',
                               'RsomeV.C01Model.ro_model_sound_eq', 'RsomeV.C01Model.ro_model_sound_obj',
                               'RsomeV.C01Model.ro_model_sound_obj_plain'],
@@ -161,6 +162,7 @@ def run(ctx):
     # ---- (d) the whole ro.Model.do_math() assembly (st order, equality split, default set, objective blocks, multiplier
     #          numbering, bound folding, cones) vs the Lean roModel, entry by entry ------------------------------------
     C.run_difftest(ctx, 'test_ro_model.py', ctx.n(60, 1200), 'ro.Model.do_math (whole compiled program of an ro model)')
+    C.run_difftest(ctx, 'test_lmi.py', ctx.n(40, 800), 'LMI supports: do_math(primal=False) with LMI blocks and the LMI rows of le_to_rc')
     # ---- search --------------------------------------------------------------------------
     bad = {id(dg['case'].get('desc')) for dg in ctx.disagreements}
     order = sorted(range(len(descs)), key=lambda i: 0 if id(descs[i]) in bad else 1)
